@@ -920,17 +920,18 @@ fn eval_case(c: &Case) -> Eval {
     let hosts = host_caps();
     let (exp, nontrivial) = model(&c.op, &c.a, &c.b, &hosts);
     let mut ev = Eval::pass(nontrivial).class(op_class(&c.op));
-    if exp == Expected::Unjudged {
-        ev.discard = true;
-        ev.classes.push("unjudged");
-        return ev;
-    }
     let src = case_source(c);
     let cap = Capture::default();
     let mut koto = koto::Koto::with_settings(kx::settings(&cap, &RunOpts::default()));
     install_hosts(&mut koto, &cap);
     let outcome = kx::run_on(&mut koto, &src, &RunOpts::default());
     let stdout = cap.take();
+    if exp == Expected::Unjudged {
+        // the case was run (a panic would have been reported by the runner), but it is not judged
+        ev.discard = true;
+        ev.classes.push("unjudged");
+        return ev;
+    }
     let fail = |what: &str, detail: String| Some(Fail::new(format!("c17:{what}:{}", op_class(&c.op)), format!("{detail}\noperation: {:?}\n{src}", c.op)));
     if !outcome.is_ok() {
         ev.fail = fail("script-error", format!("script failed: {outcome:?}\nstdout: {stdout}"));
